@@ -405,6 +405,11 @@ func TestC19Derivation(t *testing.T) {
 				for k := range segs {
 					segs[k] = genGoodIndex(c, "seg")
 				}
+				if c.Bool("below-account-path") {
+					// a path that starts like an account path of this wallet (m/44'/73404'/i') and goes on below it (or stops short)
+					copy(segs, zenonPath(genGoodIndex(c, "account-index")))
+					c.Class(fmt.Sprintf("path-valid-along-the-account-path-depth-%d", depth))
+				}
 				p := pathString(segs)
 				c.Class(fmt.Sprintf("path-valid-depth-%d", depth))
 				n := refDerive(seed, segs)
